@@ -288,7 +288,11 @@ def one_extract(ctx, binf, d, train, sc, idx, master=None):
     kw = {"max_wf": sc["maxwf"], "chunksize_samples": sc["chunk"], "n_jobs": sc["njobs"]}
     kw = {a: b for a, b in kw.items() if b is not None}
     if not sc.get("noseed"):
-        kw["seed"] = sc["seed"]
+        kw["seed"] = sc.get("xseed", sc["seed"])
+    if sc["njobs"] is None and sc["maxwf"] is None:
+        import joblib
+        if joblib.cpu_count() < 2:      # the default is half of the CPUs: not a worker count on a single-CPU machine
+            kw["n_jobs"] = 1
     if sc.get("cbin") == "scratch":
         kw["scratch_dir"] = Path(ctx.scratch) / f"wfscr_{idx}"
     if sc.get("explicit"):
@@ -371,7 +375,7 @@ def one_extract(ctx, binf, d, train, sc, idx, master=None):
         # templates: row i = median over the rows of the i-th cluster present in the table
         for i, (cl, g) in enumerate(tab.groupby("cluster", sort=True)):
             med = np.nanmedian(traces[g.index.min(): g.index.max() + 1], axis=0)
-            if i >= templ.shape[0] or not np.allclose(templ[i], med, rtol=1e-6, atol=0, equal_nan=True):
+            if i >= templ.shape[0] or templ[i].shape != med.shape or not np.allclose(templ[i], med, rtol=1e-6, atol=0, equal_nan=True):
                 rec["obs"]["templ_ok"] = False
     # content indexed by waveform_index (row r <-> widx r when order_ok)
     rec["content"] = content
@@ -392,11 +396,84 @@ def one_extract(ctx, binf, d, train, sc, idx, master=None):
 
 
 def nstates(t):
-    return 3 if t["exc"] else len(t["jobs"]) + 4
+    return 3 if t["exc"] or t.get("kind") == "array" else len(t["jobs"]) + 4
 
 
 def strip(t):
-    return {k: t[k] for k in ("maxwf", "chunk", "train", "table", "jobs", "content", "exc", "obs")}
+    r = {k: t[k] for k in ("maxwf", "chunk", "train", "table", "jobs", "content", "exc", "obs")}
+    r["kind"], r["a"] = t.get("kind", "cbin"), t.get("a", {})
+    return r
+
+
+# direct calls of the gather: (trough_offset, spike_length_samples, radius or None for make_channel_index's own default,
+# NaN row given / to be added, array type, form of the frame, verbose)
+ARRAY_CASES = [(42, 128, None, "given", "float32", 0, False), (42, 128, 200.0, "add", "int16", 1, False),
+               (20, 64, 100.0, "given", "float64", 1, True), (0, 10, 40.0, "add", "float32", 0, False),
+               (30, 121, 300.0, "given", "float32", 1, False), (9, 10, 26.0, "add", "float64", 0, False),
+               (100, 400, 75.0, "given", "float32", 0, True), (63, 64, 0.0, "add", "int16", 1, False),
+               (1, 2, 250.0, "given", "float64", 0, False), (42, 128, 200.0, "add", "float32", 1, True)]
+
+
+def one_array(ctx, binf, sc):
+    """one direct extract_wfs_array call on an array of the recording's geometry whose every value is distinguishable"""
+    import pandas as pd
+    import spikeglx
+    from ibldsp import waveform_extraction as we
+    from ibldsp.utils import make_channel_index
+    T, L, radius, nan, dt, dfk, verbose = sc["array"]
+    rng = np.random.default_rng(sc["seed"])
+    sr = spikeglx.Reader(binf)
+    geom = np.c_[sr.geometry["x"], sr.geometry["y"]]
+    sr.close()
+    nc, nsa = geom.shape[0], int(sc["nsa"])
+    data = rng.integers(-30000, 30000, (nsa, nc)).astype(dt).T          # (nc, ns), not contiguous, as the chunk jobs pass it
+    lo, hi = T, nsa - (L - T) - 1                                       # first and last sample whose window lies inside
+    smp = [lo, lo + 1, hi - 1, hi] + [int(x) for x in rng.integers(lo, hi + 1, sc["n"])]
+    smp = sorted(smp + [smp[-1], smp[-2]])                              # the same sample on two peak channels
+    peaks = [int(rng.choice([0, 1, 2, nc // 2 - 1, nc // 2, nc - 3, nc - 2, nc - 1])) if rng.random() < 0.6 else int(rng.integers(0, nc))
+             for _ in smp]
+    rec = {"kind": "array", "a": {"ns": nsa, "trough": T, "len": L, "samples": smp}, "ns": sc["ns"], "maxwf": 0, "chunk": 1,
+           "train": [], "table": [], "jobs": [], "content": [], "exc": "", "detail": {}, "hash": None,
+           "obs": {"rows_ok": True, "table_ok": True, "order_ok": True, "chan_ok": True, "templ_ok": True, "loader_ok": True}}
+    full = np.vstack([data.astype(np.float64), np.full((1, nsa), np.nan)])
+    arr = data if nan == "add" else np.vstack([data, np.full((1, nsa), np.nan, dtype=dt)])
+    arr.setflags(write=False)
+    if dfk == 0:
+        df = pd.DataFrame({"sample": smp, "peak_channel": peaks})
+    else:       # a slice of a larger table: other columns, an index that does not start at 0, 32-bit columns
+        df = pd.DataFrame({"cluster": 5, "sample": np.array(smp, dtype=np.int32), "peak_channel": np.array(peaks, dtype=np.int32),
+                           "waveform_index": np.arange(len(smp))[::-1]}, index=np.arange(len(smp)) + 1000)
+    nb = make_channel_index(geom) if radius is None else make_channel_index(geom, radius=radius)
+    kw = {}
+    if (T, L) != (42, 128) or dfk:
+        kw.update(trough_offset=T, spike_length_samples=L)
+    if nan == "add":
+        kw["add_nan_trace"] = True
+    if verbose:
+        kw["verbose"] = True
+    try:
+        res = we.extract_wfs_array(arr, df, nb, **kw)
+        wfs, cind, third = res
+    except Exception as e:  # noqa
+        rec["exc"] = f"{type(e).__name__}: {e}"[:150].replace('"', "'")
+        return rec
+    # independent reading of the neighbourhood: ascending channels within the radius, padded with nc
+    dist = np.sqrt(((geom[:, None, :] - geom[None, :, :]) ** 2).sum(-1))
+    within = dist <= (200.0 if radius is None else radius)
+    width = int(within.sum(1).max())
+    wfs, cind = np.asarray(wfs), np.asarray(cind)
+    rec["obs"]["rows_ok"] = bool(wfs.shape == (len(smp), width, L) and cind.shape == (len(smp), width) and third == T)
+    if rec["obs"]["rows_ok"]:
+        for i, (s_, pk) in enumerate(zip(smp, peaks)):
+            near = np.flatnonzero(within[pk])
+            want_c = np.full(width, nc)
+            want_c[: near.size] = near
+            if not np.array_equal(cind[i], want_c):
+                rec["obs"]["chan_ok"] = False
+            rec["content"].append(1 if np.array_equal(wfs[i].astype(np.float64), full[want_c][:, s_ - T: s_ - T + L], equal_nan=True) else 0)
+    else:
+        rec["detail"]["shape"] = [list(wfs.shape), list(cind.shape), [len(smp), width, L]]
+    return rec
 
 
 def write_cfg(ctx, ns):
@@ -421,8 +498,13 @@ def validate(ctx, traces, label):
 
 
 def describe(sc):
+    if "array" in sc:
+        T, L, radius, nan, dt, dfk, verbose = sc["array"]
+        return (f"extract_wfs_array({sc['kind']} geometry, {dt} array of {sc['nsa']} samples, NaN row {nan}, trough_offset={T}, "
+                f"spike_length_samples={L}, radius={radius}, frame form {dfk}, seed={sc['seed']})")
+    extra = "".join(f", {k}={sc[k]}" for k in ("ids", "empty", "left", "cbin", "noseed", "explicit") if sc.get(k))
     return (f"extract_wfs_cbin({sc['kind']}, ns={sc['ns']}, {sc['nspk']} spikes/{sc['nunits']} units, max_wf={sc['maxwf']}, "
-            f"chunk={sc['chunk']}, n_jobs={sc['njobs']}, seed={sc['seed']})")
+            f"chunk={sc['chunk']}, n_jobs={sc['njobs']}, seed={sc['seed']}{extra})")
 
 
 def report(ctx, scs, traces, verdicts):
@@ -452,13 +534,40 @@ def scenarios(ctx):
                 k = next((k for k in range(2, 12) if (ns - r) % k == 0 and (ns - r) // k >= 500), None)
                 if k:
                     combos = combos + [((ns - r) // k, 1 + (r % 3))]
+            g = ri * trains + ti
+            # the state a run finds: k-th run of its train - left-overs in the output folder (none, a larger extraction, a
+            # cut-off one, a legacy 4-D one, a shorter one), unit labels (small / signed / large), a unit with quota 0
+            common = {"kind": kind, "ns": ns, "rec": ri, "train": ti, "seed": base + 10 * ri + ti, "nunits": 4 + ti % 3, "nspk": 400,
+                      "g": g, "ids": g % 3, "empty": g % 2 == 0}
+            k = 0
             for chunk, nj in combos:
-                scs.append({"kind": kind, "ns": ns, "rec": ri, "train": ti, "maxwf": maxwf, "chunk": chunk, "njobs": nj,
-                            "seed": base + 10 * ri + ti, "nunits": 4 + ti % 3, "nspk": 400, "group": f"r{ri}t{ti}"})
+                scs.append(dict(common, maxwf=maxwf, chunk=chunk, njobs=nj, group=f"r{ri}t{ti}", k=k, left=[0, 1, 4, 2, 3][k % 5]))
+                k += 1
             if ti == 0:
                 # same recording handed in compressed (with and without a scratch directory): same files required
                 for mode in (["scratch"] if ctx.quick else ["scratch", "inplace"]):
-                    scs.append(dict(scs[-1], chunk=3000, njobs=2, cbin=mode))
+                    scs.append(dict(scs[-1], chunk=3000, njobs=2, cbin=mode, k=k, left=[0, 1, 4, 2, 3][k % 5]))
+                    k += 1
+            # max_wf beyond every unit (every extractable spike is taken, whatever the generator: the keywords left at
+            # their defaults belong to the same group) and max_wf = 1
+            extra = []
+            if not ctx.quick or ti == 1:
+                extra += [dict(maxwf=1000, chunk=[3000, 777][ri % 2], njobs=2 + ri % 2, group=f"r{ri}t{ti}all"),
+                          dict(maxwf=None, chunk=None if ri % 2 == 0 else 10000, njobs=None if ri % 2 == 0 else 1, noseed=True,
+                               explicit=ri % 2 == 0, group=f"r{ri}t{ti}all")]
+            if not ctx.quick or (ti == 1 and ri % 2 == 1):
+                extra += [dict(maxwf=1, chunk=3000, njobs=2, group=f"r{ri}t{ti}one")]
+            if not ctx.quick:
+                extra += [dict(maxwf=256, chunk=6500, njobs=4, xseed=base + 77, group=f"r{ri}t{ti}all"),
+                          dict(maxwf=1, chunk=500, njobs=4, group=f"r{ri}t{ti}one")]
+            for e in extra:
+                scs.append(dict(common, train_maxwf=maxwf, k=k, left=[0, 1, 4, 2, 3][k % 5], **e))
+                k += 1
+        # the gather called directly
+        cases = ARRAY_CASES[ri % 2::2] if ctx.quick else ARRAY_CASES
+        for ci, case in enumerate(cases):
+            scs.append({"kind": kind, "ns": ns, "rec": ri, "array": list(case), "nsa": 480 + 97 * ((ci + ri) % 4), "n": 12 if ctx.quick else 40,
+                        "seed": base + 100 * ri + ci, "group": None})
     return scs
 
 
@@ -473,21 +582,31 @@ def run(ctx):
     r = tlc.run("mc/MC_WaveformExtract.tla", cfg, workers=8, timeout=3000, heap="8g", coverage=True)
     ctx.tlc(r, cfg)
     if r.ok:
-        tlc.require_all_actions_taken(r)
+        # vacuity control on the *final* coverage report: on a busy machine TLC also prints interim reports (one a minute), and
+        # Finalize is first enabled at the fourth level of the search (the counts of the last report are cumulative)
+        final = r.out[max(0, r.out.rfind("The coverage statistics at")):]
+        zero = [a for a in tlc.coverage_zero_actions(final) if not a.startswith("Init") and not a.endswith("Init")]
+        if "End of statistics" not in final or "<MakeTable line" not in final:
+            raise tlc.TLCError("vacuity control: no complete final coverage report in the TLC output")
+        if zero:
+            raise tlc.TLCError(f"vacuity: actions never taken in the model run: {zero}")
     if not r.ok:
         raise tlc.TLCError(f"WaveformExtract model of the current tree violates {r.invariant_violated}:\n{r.out[-2000:]}")
     scs = scenarios(ctx)
     rng = np.random.default_rng(ctx.seed)
-    recs, trains, traces = {}, {}, []
+    recs, trains, masters, traces = {}, {}, {}, []
     for i, sc in enumerate(scs):
         if sc["rec"] not in recs:
             recs[sc["rec"]] = make_rec(ctx, sc["kind"], sc["ns"], rng, sc["rec"])
         binf, d = recs[sc["rec"]]
+        if "array" in sc:
+            traces.append(one_array(ctx, binf, sc))
+            ctx.count(1, key=(sc["kind"], "array") + tuple(sc["array"]))
+            continue
         tk = (sc["rec"], sc["train"])
         if tk not in trains:
-            trains[tk] = make_train(sc["ns"], [500, 777, 1000, 3000, 6500, 10000], np.random.default_rng(sc["seed"]),
-                                    sc["nunits"], sc["maxwf"], sc["nspk"], variant=sc["seed"] % 2)
-        t = one_extract(ctx, binf, d, trains[tk], sc, i)
+            trains[tk] = build_train(sc)
+        t = one_extract(ctx, binf, d, trains[tk], sc, i, masters.setdefault(tk, {}))
         traces.append(t)
         ctx.count(1, key=(sc["kind"], sc["ns"], sc["train"], sc["maxwf"], sc["chunk"], sc["njobs"]))
     verdicts = validate(ctx, traces, "wfs")
@@ -495,7 +614,7 @@ def run(ctx):
     # independence of chunk size and worker count: identical files for identical (recording, train, max_wf, seed)
     groups = {}
     for sc, t in zip(scs, traces):
-        if t["hash"]:
+        if t["hash"] and sc["group"]:
             groups.setdefault(sc["group"], []).append((sc["chunk"], sc["njobs"], t["hash"]))
     for g, lst in groups.items():
         if len({tuple(h) for _, _, h in lst}) > 1:
@@ -506,15 +625,21 @@ def run(ctx):
         if t.get("source_dir_changed"):
             ctx.observe(f"extract_wfs_cbin on a .cbin (scratch mode {sc.get('cbin')}) changed the recording's own folder: "
                         f"{t['source_dir_changed']} (no listed property covers this)")
-    for sc, t in list(zip(scs, traces))[:2]:
+    for sc, t in [x for x in zip(scs, traces) if "array" not in x[0]][:2]:
         ctx.sample({"scenario": sc, "first_spikes": t["train"][:5], "table_rows": len(t["table"]),
                     "jobs": [[j["c"], len(j["rows"]), j["snip_first"], j["snip_len"]] for j in t["jobs"][:5]]})
     selftest(ctx, traces, {v["index"] for v in verdicts})
     ctx.cov["rule"] = ("model: every train of the box x max_wf x chunk x selection x job interleaving; real runs: recordings x spike "
-                       "trains (edges, chunk boundaries, duplicates across units, unit sizes around max_wf) x (chunk, n_jobs); "
-                       "distinct = distinct (recording, train, max_wf, chunk, n_jobs)")
+                       "trains (edges, chunk boundaries, duplicates across units, unit sizes around max_wf, units without extractable "
+                       "spikes, signed / large labels) x (chunk, n_jobs) x what the output folder held before x max_wf beyond every "
+                       "unit / 1 / default; direct extract_wfs_array calls x (trough, length, radius, NaN row, array type); "
+                       "distinct = distinct (recording, train, max_wf, chunk, n_jobs) or array case")
     ctx.assumptions += ["preprocess_steps=[] so that 'equals the source traces' is literal (float32(raw) * gain)",
                         "spike trains are sorted by sample and have no duplicate (sample, cluster) pair",
+                        "direct extract_wfs_array calls ask only for windows that lie inside the array (its documented precondition) "
+                        "and hand over a frame sorted by sample",
+                        "left-overs in the output folder are files under the four output names (and one foreign file); a stale "
+                        "decompressed copy in scratch_dir is outside (spikeglx trusts it by design)",
                         "the hook emits after the memmap assignment of a chunk job; jobs of one call write disjoint rows iff "
                         "AtMostOnce holds, which makes the result schedule-independent"]
 
@@ -536,6 +661,12 @@ def selftest(ctx, traces, bad):
         else:               # a unit lost one of its spikes
             t["table"] = t["table"][1:]
         mut.append(t)
+    for i, t in enumerate(traces):
+        if t.get("kind") == "array" and i not in bad and not t["exc"] and t["content"]:      # a gathered window differs from the array
+            t = copy.deepcopy(t)
+            t["content"][-1] = 0
+            mut.append(t)
+            break
     keep = ctx.cov["traces_validated_against_impl"]
     v = validate(ctx, mut, "selftest")
     ctx.cov["traces_validated_against_impl"] = keep
@@ -553,15 +684,17 @@ def replay(ctx, sc):
     scs = sc["scenario"] if isinstance(sc["scenario"], list) else [sc["scenario"]]
     rng = np.random.default_rng(ctx.seed)
     traces = []
-    recs = {}
+    recs, masters = {}, {}
     for i, s in enumerate(scs):
         if s["rec"] not in recs:
             for _ in range(s["rec"] + 1):      # same generator stream as in run(): recording k is the k-th drawn
                 pass
             recs[s["rec"]] = make_rec(ctx, s["kind"], s["ns"], rng, s["rec"])
         binf, d = recs[s["rec"]]
-        train = make_train(s["ns"], [500, 777, 1000, 3000, 6500, 10000], np.random.default_rng(s["seed"]), s["nunits"], s["maxwf"], s["nspk"], variant=s["seed"] % 2)
-        traces.append(one_extract(ctx, binf, d, train, s, i))
+        if "array" in s:
+            traces.append(one_array(ctx, binf, s))
+            continue
+        traces.append(one_extract(ctx, binf, d, build_train(s), s, i, masters.setdefault((s["rec"], s["train"]), {})))
     report(ctx, scs, traces, validate(ctx, traces, "replay"))
     hs = {tuple(t["hash"]) for t in traces if t["hash"]}
     if len(scs) > 1 and len(hs) > 1:
